@@ -149,6 +149,7 @@ def pairsTo (tag : String) (l : List (Text × Text)) : Sexp := .list (.atom tag 
 def requestFileTo (r : RequestFile) : Sexp :=
   .list [.atom "requestfile", .str r.stem,
     .list [.atom "struct", .str r.structName, strsTo "derives" r.derives, .list [.atom "doc", .str r.doc], pairsTo "fields" r.fields],
+    strsTo "imports" r.imports,
     (match r.required with
      | some (n, lts, fs) => .list [.atom "required", .str n, strsTo "lifetimes" lts, pairsTo "fields" fs]
      | none => .list [.atom "norequired"]),
